@@ -55,18 +55,43 @@ def _attr_children(val, out, seen=None):
     if kind_of(val) != "o":
         out.append(val)
         return
-    if not isinstance(val, (list, tuple, dict)):
+    if not isinstance(val, (list, tuple, dict, set, frozenset)):
         return
     seen = {} if seen is None else seen
     if id(val) in seen:
         return
     seen[id(val)] = val
     if isinstance(val, dict):
-        for k in sorted(val, key=str):
-            _attr_children(val[k], out, seen)
+        # (items, not look-ups: this walk must work on a container whose
+        # members can no longer be found in it)
+        for k, x in _ordered_items(val):
+            _attr_children(k, out, seen)
+            _attr_children(x, out, seen)
+    elif isinstance(val, (set, frozenset)):
+        for x in _ordered(val):
+            _attr_children(x, out, seen)
     else:
         for x in val:
             _attr_children(x, out, seen)
+
+
+def _ordered_items(mapping):
+    pairs = list(mapping.items())
+    order = {id(k): i for i, k in enumerate(_ordered([k for k, _ in pairs]))}
+    return sorted(pairs, key=lambda kv: order[id(kv[0])])
+
+
+def _ordered(items):
+    """
+    Members of a hash container in an order that does not depend on memory
+    addresses: graph objects by uid (which a pickle preserves), the rest by text.
+    """
+    def key(x):
+        if kind_of(x) != "o":
+            return (1, str(getattr(x, "uid", "")))
+        return (0, str(x))
+
+    return sorted(items, key=key)
 
 
 def children(obj):
@@ -119,6 +144,19 @@ def enc(w, val):
         return val
     if kind_of(val) != "o":
         return {"ref": w.lab(val)}
+    if isinstance(val, (set, frozenset)) or (isinstance(val, dict) and any(kind_of(k) != "o" for k in val)):
+        # hash containers of graph objects: their members, and whether every
+        # member can still be FOUND in the container it is a member of
+        members = _ordered(val)
+        try:
+            finds = all(m in val for m in members)
+        except Exception as exc:  # pylint: disable=broad-except
+            finds = "!" + type(exc).__name__
+        if isinstance(val, dict):
+            body = [[enc(w, k), enc(w, x)] for k, x in _ordered_items(val)]
+        else:
+            body = [enc(w, m) for m in members]
+        return {"hash-container": type(val).__name__, "members": body, "every-member-found": finds}
     if isinstance(val, (list, tuple, dict, bytes, bytearray)):
         # "shared objects still shared": containers are numbered by first
         # visit (a deterministic order: objects by canonical label, attributes
@@ -247,6 +285,13 @@ class PExec(O.Exec):
                         val["me"] = val
                     table[key] = val
                 return table[key]
+            if "set" in v:
+                return set(self.decode_val(x) for x in v["set"])
+            if "fset" in v:
+                return frozenset(self.decode_val(x) for x in v["fset"])
+            if "keyed" in v:
+                # a dictionary keyed by graph objects
+                return {self.decode_val(k): self.decode_val(x) for k, x in v["keyed"]}
             if "tuple" in v:
                 return tuple(self.decode_val(x) for x in v["tuple"])
             if "dict" in v:
@@ -299,7 +344,7 @@ def _spec_refs(spec):
     if isinstance(spec, dict):
         if "ref" in spec:
             out.append(spec)
-        for key in ("val", "tuple"):
+        for key in ("val", "tuple", "set", "fset", "keyed"):
             if key in spec:
                 out.extend(_spec_refs(spec[key]))
         if "dict" in spec:
@@ -431,7 +476,12 @@ def run_continuation(ex, trace, deep):
     return outs
 
 
-def load_and_continue(data, loader, flag_load, trace, deep):
+def cont_uid_seed(hashseed):
+    """Both sides create the objects of the continuation from one uid stream."""
+    return seams.derive_seed("c10-continuation-uids", hashseed)
+
+
+def load_and_continue(data, loader, flag_load, trace, deep, hashseed=0):
     """-> dict(load_exc | canon digest/snapshot, outcomes, final)"""
     seams.set_flag(flag_load)
     try:
@@ -465,6 +515,7 @@ def load_and_continue(data, loader, flag_load, trace, deep):
             out["second_generation_digest"] = digest(canon_snapshot(canonical_world(again)))
         except Exception as exc:  # pylint: disable=broad-except
             out["second_generation_exc"] = type(exc).__name__
+    seams.install_uid_stream(cont_uid_seed(hashseed))
     out["outcomes"] = run_continuation(ex, trace, deep)
     final = canon_snapshot(canonical_world(root if not isinstance(root, C.WorldBox) else root), with_uid=False)
     out["final_digest"] = digest(final)
@@ -477,7 +528,8 @@ def load_and_continue(data, loader, flag_load, trace, deep):
 def child_side(payload):
     seams.reset_process_state(("c10-child", payload["run_seed"]))
     res = load_and_continue(
-        payload["bytes"], payload["loader"], payload["flag_load"], payload["trace"], payload["deep"]
+        payload["bytes"], payload["loader"], payload["flag_load"], payload["trace"], payload["deep"],
+        hashseed=payload.get("op", {}).get("hashseed", 0),
     )
     res.pop("_root", None)
     res.pop("_world", None)
@@ -570,6 +622,7 @@ class C10(engine.Property):
         "attribute-holding-an-accessor-result",
         "container-shared-between-attributes",
         "warm-memo-then-mutation-then-same-read-on-the-copy",
+        "hash-container-of-graph-objects-as-attribute",
     ]
 
     # -- configuration --------------------------------------------------------------------
@@ -754,7 +807,23 @@ class C10(engine.Property):
             if inner and rng.random() < 0.6:
                 obj = rng.choice(inner)
             st.stats["probe:container-shared-between-attributes"] += 1
-        elif r < 0.20:
+        elif r < 0.20 and self._plain_hashed(view, refs):
+            # hash containers of graph objects (the "team" pattern: members
+            # carry the set of members; a lookup table keyed by vertices).
+            # Only classes that hash by identity: an object hashed by VALUE
+            # cannot sit in a set that is part of a cycle through itself --
+            # pickle fills the set before the object has its state back
+            plain = self._plain_hashed(view, refs)
+            members = [{"ref": x} for x in rng.sample(plain, min(len(plain), rng.randint(1, 4)))]
+            kind = rng.choice(["set", "fset", "keyed"])
+            if kind == "keyed":
+                val = {"keyed": [[m, i] for i, m in enumerate(members)]}
+            else:
+                val = {kind: members}
+            if rng.random() < 0.5:
+                obj = rng.choice([m["ref"] for m in members])
+            st.stats["probe:hash-container-of-graph-objects-as-attribute"] += 1
+        elif r < 0.24:
             # binary data: small and shared between attributes, or past the
             # size at which pickle writes bytes out of band (64 KiB)
             val = {"blob": rng.choice([0, 3, 3, 40, 65536, 70001]), "key": rng.randrange(2)}
@@ -772,6 +841,11 @@ class C10(engine.Property):
         else:
             return {"op": "del_attr", "obj": obj, "name": name, "via": rng.choice(["item", "attr"])}
         return {"op": "set_attr", "obj": obj, "name": name, "val": val, "via": rng.choice(["item", "attr"])}
+
+    @staticmethod
+    def _plain_hashed(view, refs):
+        odd = ("EqVertex", "EqUniverse", "UnhashableVertex", "UnhashableUniverse", "BondEdge")
+        return [x for x in refs if view.snap.get(x, {}).get("cls") not in odd]
 
     def _pickle_op(self, rng, cfg, st):
         # the copy starts without the containers shared so far: new keys from here on
@@ -1009,6 +1083,8 @@ class C10(engine.Property):
                 break
         if any("slots" in d for d in canon0.values()):
             s["probe:slotted-attributes-pickled"] += 1
+        # the continuation's new objects get their uids from a stream both sides start alike
+        seams.install_uid_stream(cont_uid_seed(op.get("hashseed", 0)))
         st.bytes = data
         st.pickle_op = op
         st.root = root
@@ -1061,7 +1137,7 @@ class C10(engine.Property):
         if mode != "inproc" and op["flag_load"]:
             s["probe:fresh-interpreter-flag-on-at-load"] += 1
         if mode == "inproc":
-            res = load_and_continue(st.bytes, op["loader"], op["flag_load"], st.trace, deep)
+            res = load_and_continue(st.bytes, op["loader"], op["flag_load"], st.trace, deep, hashseed=op.get("hashseed", 0))
             wcopy = res.pop("_world", None)
             res.pop("_root", None)
             if wcopy is not None:
